@@ -195,6 +195,11 @@ func init() {
 					c := genDocset(r, o)
 					c.Configs = map[int]string{6: "ac_matcher", 7: "ext_range"}
 					c.Docs = append(c.Docs, eDoc{ID: 900 + int64(k), Cons: []eConj{{{F: 6, Inc: true, V: tvStr("red")}, {F: 7, Inc: true, Op: 1, V: tvInt("int64", 10)}}}})
+					// a larger conjunction on default fields only: a retrieval can collect it at a high k and
+					// still fail later, at the smaller k where the pattern/range holders live
+					c.Docs = append(c.Docs, eDoc{ID: 950 + int64(k), Cons: []eConj{{{F: 0, Inc: true, V: tvSlice("[]int", tvInt("int", 1))},
+						{F: 1, Inc: true, V: tvSlice("[]int", tvInt("int", 1))}, {F: 2, Inc: true, V: tvSlice("[]int", tvInt("int", 1))}}}})
+					big := []eAssign{{F: 0, V: tvInt("int", 1)}, {F: 1, V: tvInt("int", 1)}, {F: 2, V: tvInt("int", 1)}}
 					// lengthen the history and inject failing retrievals
 					base := c.Queries
 					c.Queries = nil
@@ -203,6 +208,8 @@ func init() {
 						q := base[r.Intn(len(base))]
 						q.Debug = r.Chance(15)
 						switch {
+						case r.Chance(12): // collects at k=3, then fails at a smaller k
+							q = eQuery{A: setAssign(big, pick(r, []int{6, 7}), pick(r, []TV{tvBool(true), {T: "other:struct"}}))}
 						case r.Chance(15): // fails: unsupported value on a known field
 							q.A = setAssign(q.A, pick(r, []int{0, 6, 7}), pick(r, []TV{tvBool(true), {T: "other:struct"}, tvList(tvList())}))
 						case r.Chance(25):
